@@ -6,3 +6,5 @@ import XProofs.Properties.C04
 #print axioms Properties.C04.C04_eval_homomorphism_full
 #print axioms Properties.C04.C04_full_extends_fragment
 #print axioms Properties.C04.C04_table_complete
+#print axioms Properties.C04.C04_propagate_covers_universe
+#print axioms Properties.C04.C04_eval_homomorphism_universe
